@@ -51,7 +51,45 @@ def innermost_hl7apy_frame(exc):
     return fn or 'outside-hl7apy'
 
 
-def probe(s, rec, bases=()):
+class Recorder_like(object):
+    """minimal recorder used when re-probing a reduced input"""
+
+    def __init__(self):
+        self.causes = []
+
+    def violation(self, cause, *a, **k):
+        self.causes.append(cause)
+
+    def evaluation(self, *a, **k):
+        pass
+
+    def count(self, *a, **k):
+        pass
+
+    def seen(self, *a, **k):
+        pass
+
+
+_bad_cache = {}
+
+
+def malformed_lines(text):
+    """[(version, segment)] for the lines of `text` naming a segment with a malformed table row in the text's version"""
+    try:
+        first = text.lstrip().split('\r', 1)[0]
+        f = first[3]
+        v = first.split(f)[11].split(first[4])[0]
+    except Exception:
+        return []
+    if v not in tables.versions():
+        return []
+    if v not in _bad_cache:
+        segs = tables.segments(v)
+        _bad_cache[v] = {s for s, rows in segs.items() if rows is None or any(not r.ok for r in rows)}
+    return [(v, l[:3]) for l in text.split('\r') if l[:3] in _bad_cache[v]]
+
+
+def probe(s, rec, bases=(), _nested=False):
     """run every entry point on one input; -> number of leaks"""
     from hl7apy.parser import parse_message, get_message_type
     from hl7apy.exceptions import HL7apyException
@@ -60,7 +98,17 @@ def probe(s, rec, bases=()):
 
     def leak(stage, e, extra):
         cause = 'leak:%s:%s:%s' % (stage, type(e).__name__, innermost_hl7apy_frame(e))
-        rec.violation(cause, dict({'kind': 'input', 'text': s}, **extra), {'exc': repr(e)[:200]})
+        row = None
+        if not _nested:
+            bad = malformed_lines(s)
+            if bad:
+                # does the leak go away without the lines naming segments whose table rows are malformed (C02 findings)?
+                keep = '\r'.join(l for l in s.split('\r') if l[:3] not in {b[1] for b in bad})
+                sub = Recorder_like()
+                probe(keep, sub, bases, _nested=True)
+                if not any(c.startswith('leak:%s:' % stage) for c in sub.causes):
+                    cause, row = 'leak-through-malformed-table-row', '%s|%s' % bad[0]
+        rec.violation(cause, dict({'kind': 'input', 'text': s}, **extra), {'exc': repr(e)[:200]}, row=row)
 
     rec.evaluation(('gmt', s), nontrivial)
     try:
